@@ -227,6 +227,7 @@ def inverse_rules(repo, rep):
 
 def run(repo, rep):
     alg.reset()
+    common.typecheck_rules(repo, rep)
     common.state_rule(repo, rep, [('geodepy.convert', 'llh2xyz'), ('geodepy.convert', 'xyz2llh')])
     common.ellipsoid_rules(repo, rep, projections=False)
     rep.trust('sv/alg.py exact normal forms; generator independence modulo the rewrite rules applied')
